@@ -9,9 +9,9 @@ import "sync/atomic"
 // arrives in symbolic chunks and is read with symbolic buffer sizes.  Every
 // byte before the cut must come out, in order, before the error.
 func verifC07ReadPipe() {
-	k, body := 2, 1
+	k, body := 1, 2
 	if vTier() > 0 {
-		k, body = 2, 3
+		k, body = 2, 2
 	}
 	hello := []byte{22, 3, 3, 0, 2, 1, 0} // stands for the rewritten hello already buffered
 	in := vRecordStream(k, body)
